@@ -73,7 +73,9 @@ def prune(n: Node, strict: bool = False) -> list:
                 n.parent.remove_child(n)
             Node.delete_node_instance(n.id)
             return pruned
-        except ChildNotAllowedError as ex:
+        except MetapypeRuleError as ex:
+            # whichever rule error came first (content, attribute or child), children the rule does not allow are pruned
+            logger.debug(ex)
             r = rule.get_rule(n.name)
             children = n.children.copy()
             for child in children:
@@ -82,12 +84,11 @@ def prune(n: Node, strict: bool = False) -> list:
                     pruned.append((child, str(ex)))
                     n.remove_child(child)
                     Node.delete_node_instance(child.id)
-        except MetapypeRuleError as ex:
-            logger.debug(ex)
         children = n.children.copy()
         for child in children:
             pruned += prune(child, strict)
-            if strict and child not in pruned:
+            # a child that the recursive call pruned (unknown element) is already gone
+            if strict and child in n.children:
                 try:
                     node(child)
                 except MetapypeRuleError as ex:
